@@ -178,6 +178,16 @@ def writer_for(cfg):
     return write_delimited if cfg["delimited"] else write_single
 
 
+def serialize_input(cfg, ops, sim=None) -> bytes:
+    """Bytes of the real writer for checks that only need a valid stream to work on: if the writer refuses the
+    generated input, the run is skipped (SkipRun), not judged."""
+    from .kernel import SkipRun
+    try:
+        return serialize(cfg, ops, sim)
+    except Exception as e:  # noqa: BLE001
+        raise SkipRun(f"writer refused the generated input: {type(e).__name__}: {e}") from None
+
+
 def serialize(cfg, ops, sim=None, stream_box=None) -> bytes:
     """Run a serializer entry point to completion and return the bytes written."""
     out = io.BytesIO()
